@@ -13,6 +13,7 @@ func init() {
 	exec := map[string]func(in In, em *Emitter){
 		"masks": execMasks, "rank": execRank, "select": execSelect, "scan": execScan,
 		"of": execOf, "ofmany": execOfMany, "toarray": execToArray, "join": execJoin, "slice": execSlice,
+		"bld": execBuilder,
 	}
 	trivBM := func(k string, in In) bool {
 		if in.has("bm") {
@@ -26,6 +27,7 @@ func init() {
 	props["C12"] = &Prop{Gen: genC12, Exec: exec, Trivial: func(k string, in In) bool {
 		return k == "of" && len(in.Is("pos")) == 0 && !in.Bool("hasn")
 	}}
+	props["C12b"] = &Prop{Gen: genC12b, Exec: exec, Trivial: func(k string, in In) bool { return len(in.L("ops")) < 2 }}
 	props["C14"] = &Prop{Gen: genC14, Exec: exec, Trivial: func(k string, in In) bool {
 		return (k == "join" && len(toList(in.get("vals"))) == 0) || (k == "slice" && in.I("from") == in.I("to"))
 	}}
@@ -629,4 +631,81 @@ func genC14(g *Gen) {
 			g.Case("slice", J{"bm": bmJ(ws), "from": from, "to": to})
 		}
 	})
+}
+
+// ---------------------------------------------------------------- C12: Builder histories
+
+func execBuilder(in In, em *Emitter) {
+	var b *bitmap.Builder
+	for _, op := range in.L("ops") {
+		k := op.S("k")
+		ev := J{}
+		var abn string
+		switch k {
+		case "BNew":
+			n := op.I32("n")
+			ev["n"] = n
+			abn = guard(func() { b = bitmap.NewBuilder(n) })
+		case "BExtend":
+			pos, size := op.I32s("pos"), op.I32("size")
+			ev["pos"], ev["size"] = nums32(pos), size
+			abn = guard(func() { b.Extend(pos, size) })
+		case "BSet":
+			pos, val := op.I32("pos"), op.I32("val")
+			ev["pos"], ev["val"] = pos, val
+			abn = guard(func() { b.Set(pos, val) })
+		default:
+			fatalf("bld: unknown op %q", k)
+		}
+		ev["abn"] = abn
+		if b != nil {
+			ev["st"] = J{"off": num(int64(b.Offset)), "nw": len(b.Words), "ones": onesOf(b.Words)}
+		} else {
+			ev["st"] = J{"off": 0, "nw": 0, "ones": []int64{}}
+		}
+		em.Emit(k, ev)
+		em.Calls(1)
+		if abn != "" {
+			return
+		}
+	}
+}
+
+func genC12b(g *Gen) {
+	r := g.R
+	for h := 0; h < g.N(800, 30000); h++ {
+		ops := []J{{"k": "BNew", "n": []int{0, 0, 1, 63, 64, 65, 1000}[r.Intn(7)]}}
+		pureExt := r.Intn(3) != 0 // most histories are Extend-only with ascending shifted positions
+		off := int64(0)
+		for i := 2 + r.Intn(7); i > 0; i-- {
+			if pureExt || r.Intn(3) != 0 {
+				size := []int64{0, 1, 5, 63, 64, 65, 100, 128, int64(r.Intn(200))}[r.Intn(9)]
+				pos := []int64{}
+				p := int64(0)
+				for c := r.Intn(6); c > 0; c-- {
+					p += int64(r.Intn(50))
+					if p >= size && i > 1 && pureExt {
+						break // keep the shifted concatenation ascending: only the last segment overshoots
+					}
+					pos = append(pos, p)
+					p++
+				}
+				if r.Intn(8) == 0 && (i == 1 || !pureExt) {
+					pos = append(pos, p+size+int64(r.Intn(100))) // position >= size
+				}
+				ops = append(ops, J{"k": "BExtend", "pos": pos, "size": size})
+				off += size
+			} else {
+				pos := off + int64([]int{-3, -1, 0, 1, 63, 64, 200}[r.Intn(7)])
+				if pos < 0 {
+					pos = 0
+				}
+				ops = append(ops, J{"k": "BSet", "pos": pos, "val": r.Intn(4)})
+				if pos+1 > off {
+					off = pos + 1
+				}
+			}
+		}
+		g.Case("bld", J{"ops": ops})
+	}
 }
